@@ -2,8 +2,8 @@ CONSTANTS MAXKILL = 1
  MAXPID = 3
  W = 5
  NSTEPS = 5
- CacheMode = "forcing"
- Layout = "sparse"
+ CacheMode = "state"
+ Layout = "dense"
  CompactMode = "output"
  NpidMode = "count"
 SPECIFICATION Spec
@@ -13,6 +13,7 @@ INVARIANT Independent
 INVARIANT CacheAligned
 INVARIANT RecordsFaithful
 INVARIANT RestartEq
+INVARIANT DenseAddressing
 PROPERTY RecordIsForcedState
 PROPERTY ProtocolOrder
 PROPERTY DeadStayDead
